@@ -317,6 +317,18 @@ class Run:
         if not dims_close(d0, d1):
             self.fail(f"{what}:dimensionality", f"{what} changed the dimensionality: {d0} -> {d1}", rp)
             return False
+        if not special(m0) and special(m1) and math.isinf(nominal(m1)):
+            # finite -> inf: float overflow when the true result is beyond the float range (or pint's float
+            # factor already overflowed); anything else is a changed value
+            try:
+                f0, _ = R.root(c0)
+                f1, _ = R.root(c1)
+                big = abs(fr(m0) * F(f0) / F(f1)) > F(10) ** 300
+            except (OverflowError, ValueError, ZeroDivisionError):
+                big = True
+            if big:
+                self.ck.count("float-range-exhausted")
+                return True
         if special(m0) or special(m1):
             a, b = nominal(m0), nominal(m1)
             same = (isinstance(a, float) and isinstance(b, float) and
@@ -594,6 +606,9 @@ def run(ck):
                        "offset / logarithmic units are exercised through the twin and value oracles only (C06 owns their calculus)",
                        "to_preferred: the integer programme (python-mip/CBC) is a parameter of the model; its observed answer is "
                        "passed to the model, only its dimensionality is checked",
+                       "float range: an OverflowError / inf produced by pint's own float factor computation (extreme compound units such as "
+                       "planck_time**-3 * thomson_cross_section**-3, including intermediate overflow for a representable result) is counted as "
+                       "float-range-exhausted, not as a changed value",
                        "to_compact in floats: the model is exact; a difference is accepted as explained only when the exact "
                        "magnitude is within 2^-40 (relative) of a power-of-1000 boundary"]
     ck.trusted += ["math.log10 / float rounding (not modelled: F12)", "python-mip / CBC (parameter of the model)"]
